@@ -127,6 +127,11 @@ def build_cells():
     # G: priorities
     add('priorities', 'channel-priority', ['stochastic', 'concrete'], dict(gpost='broadcast chan p1, p2; chan priority p1 < p2; '), dict(gpost='broadcast chan p1, p2; '))
     add('priorities', 'channel-priority-default', ['stochastic', 'concrete'], dict(gpost='broadcast chan p1, p2; chan priority p1 < default < p2; '), dict(gpost='broadcast chan p1, p2; '))
+    add('priorities', 'channel-priority-single-channel', ['stochastic', 'concrete'], dict(gpost='broadcast chan p1, p2; chan priority p1; '), dict(gpost='broadcast chan p1, p2; '))
+    add('priorities', 'channel-priority-one-level-two-channels', ['stochastic', 'concrete'], dict(gpost='broadcast chan p1, p2; chan priority p1, p2; '), dict(gpost='broadcast chan p1, p2; '))
+    add('priorities', 'channel-priority-array-element', ['stochastic', 'concrete'], dict(gpost='broadcast chan pa[2]; chan priority pa[1]; '), dict(gpost='broadcast chan pa[2]; '))
+    add('priorities', 'channel-priority-default-only', ['stochastic', 'concrete'], dict(gpost='broadcast chan p1; chan priority default; '), dict(gpost='broadcast chan p1; '))
+    add('priorities', 'channel-priority-template-local', ['stochastic', 'concrete'], dict(tdecl='broadcast chan lp1, lp2; chan priority lp1 < lp2; '), dict(tdecl='broadcast chan lp1, lp2; '))
     add('priorities', 'process-priority', ['stochastic', 'concrete'], dict(inst='Q = P(); R = P();', system='system Q < R;'), dict(inst='Q = P(); R = P();', system='system Q, R;'))
     add('priorities', 'process-priority-three-levels', ['stochastic', 'concrete'], dict(inst='Q = P(); R = P(); S = P();', system='system Q < R, S;'),
         dict(inst='Q = P(); R = P(); S = P();', system='system Q, R, S;'))
